@@ -58,7 +58,7 @@ impl Deserialize for PlutusScripts {
                 cbor_event::Len::Len(n) => arr.len() < n as usize,
                 cbor_event::Len::Indefinite => true,
             } {
-                if is_break_tag(raw, "PlutusScripts")? {
+                if is_break_tag(raw, len, "PlutusScripts")? {
                     break;
                 }
                 arr.push(PlutusScript::deserialize(raw)?);
@@ -87,7 +87,7 @@ impl PlutusScripts {
                 cbor_event::Len::Len(n) => arr.len() < n as usize,
                 cbor_event::Len::Indefinite => true,
             } {
-                if is_break_tag(raw, "PlutusScripts")? {
+                if is_break_tag(raw, len, "PlutusScripts")? {
                     break;
                 }
                 arr.push(PlutusScript::deserialize_with_version(raw, version)?);
